@@ -10,4 +10,8 @@ p = os.path.join(VERIF, '.cache', 'warm.rs')
 open(p, 'w').write('use vstd::prelude::*;\nverus!{ fn f(x: u8) -> (r: u8) ensures r == x { x } }\nfn main(){}\n')
 r = subprocess.run(['verus', p], capture_output=True, text=True, cwd=os.path.join(VERIF, '.cache'))
 print(r.stdout.strip().split('\n')[-1] if r.stdout else r.stderr[-300:])
+# build the stub differential tester once (used by the thorough tier); a build failure is reported, not fatal
+env = dict(os.environ, CARGO_NET_OFFLINE='true', CARGO_TARGET_DIR=os.path.join(VERIF, '.cache', 'stubcheck-target'))
+b = subprocess.run(['cargo', 'build', '--offline', '-q', '--release'], cwd=os.path.join(VERIF, 'stubcheck'), capture_output=True, text=True, env=env)
+print('stubcheck build:', 'ok' if b.returncode == 0 else b.stderr[-400:])
 sys.exit(0 if 'verified' in r.stdout else 1)
